@@ -25,7 +25,10 @@ var memCollide = map[string][2]int{
 
 var memPool = []mty{
 	{"int", []string{"0", "1", "2", "-1", "31"}, true},
-	{"string", []string{`""`, `"a"`, `"Aa"`, `"BB"`, `"b"`}, true},
+	{"string", []string{`""`, `"a"`, `"Aa"`, `"BB"`, `"b"`, `"a\x00"`, `"\x00b"`}, true},
+	{"Name", []string{`Name("")`, `Name("a")`, `Name("Aa")`, `Name("BB")`, `Name("b")`, `Name("a\x00")`, `Name("\x00b")`}, true},
+	{"[]Celsius", []string{"[]Celsius(nil)", "[]Celsius{0}", "[]Celsius{Celsius(negZero())}", "[]Celsius{1.5}", "[]Celsius{0, 1.5}", "[]Celsius{Celsius(negZero()), 1.5}"}, false},
+	{"T3", []string{"T3{}", "T3{C: Celsius(negZero())}", "T3{K: Kelvin(negZero()), L: []int{1}}", "T3{L: []int{1}}", "T3{C: 2}"}, false},
 	{"MyInt", []string{"MyInt(0)", "MyInt(5)", "MyInt(5)"}, true},
 	{"S", []string{"S{}", `S{A: 1, B: "x"}`, `S{A: 1, B: "y"}`, `S{A: 1, B: "x"}`}, true},
 	{"[2]int", []string{"[2]int{0, 0}", "[2]int{0, 31}", "[2]int{1, 0}"}, true},
@@ -66,7 +69,16 @@ func GenC18(name string, t *tape.Tape) *Shape {
 		nr = 0 // the no-result form
 	}
 	var ps []mty
+	stringsOnly := t.Chance(1, 10)
+	if stringsOnly {
+		// a parameter list of strings only (the comparable form keyed by a struct of strings)
+		np = 2 + t.Intn(2)
+	}
 	for i := 0; i < np; i++ {
+		if stringsOnly {
+			ps = append(ps, memPool[1+t.Intn(2)]) // string, Name
+			continue
+		}
 		switch {
 		case t.Chance(1, 12):
 			ps = append(ps, memFloat)
@@ -87,6 +99,18 @@ func GenC18(name string, t *tape.Tape) *Shape {
 	sb.WriteString(`
 type T2 struct {
 	N int
+	L []int
+}
+
+type Name string
+
+type Celsius float64
+
+type Kelvin float32
+
+type T3 struct {
+	C Celsius
+	K Kelvin
 	L []int
 }
 
@@ -184,9 +208,27 @@ var active map[string]bool
 				tuples = append(tuples, src)
 			}
 		}
+		allStr := np >= 2
+		for _, p := range ps {
+			if p.Go != "string" && p.Go != "Name" {
+				allStr = false
+			}
+		}
 		for c := 0; c < ncalls; c++ {
 			var tup []int
-			if len(tuples) > 0 && t.Bool() {
+			if allStr && h == 0 && c < 2 {
+				// two different tuples of strings whose concatenation with a separator coincides:
+				// ("a\x00", "b", ...) and ("a", "\x00b", ...)
+				tup = make([]int, np)
+				for i := range tup {
+					tup[i] = 1
+				}
+				if c == 0 {
+					tup[0], tup[1] = 5, 4
+				} else {
+					tup[0], tup[1] = 1, 6
+				}
+			} else if len(tuples) > 0 && t.Bool() {
 				tup = tuples[t.Intn(len(tuples))] // a repeat (fresh, Equal values)
 			} else {
 				for _, p := range ps {
